@@ -3,7 +3,7 @@
    code of reshape.go, flatten.go, squeeze.go, unsqueeze.go, shape.go as repaired), S = the
    ONNX text as written in Check/CheckC07.v (reshape_spec ... shape_spec). *)
 From Coq Require Import List ZArith Bool String.
-From V Require Import DType Tensor Case OpCheck ShapeOps CheckC07 ShapeOpsProofs C07Payload C07Numel C07Numel2 C07Numel3 C07WellFormed C07FlattenAxis C07ReshapeRefusals C07SqueezeRefusals.
+From V Require Import DType Tensor Case OpCheck ShapeOps CheckC07 ShapeOpsProofs C07Payload C07Numel C07Numel2 C07Numel3 C07WellFormed C07FlattenAxis C07ReshapeRefusals C07SqueezeRefusals C07UnsqueezeRefusals.
 Import ListNotations.
 Open Scope Z_scope.
 
@@ -114,6 +114,13 @@ Theorem C07_squeeze_refuses t a n :
   (exists x, In x (pl a) /\ - r <= x < r /\ nth (Z.to_nat (if x <? 0 then x + r else x)) (sh t) 0%nat <> 1%nat) ->
   squeeze_spec t (Some a) = SMustErr.
 Proof. exact (squeeze_refuses t a n). Qed.
+
+(* ... and for an Unsqueeze axis outside [-R, R-1], R = input rank + number of axes *)
+Theorem C07_unsqueeze_refuses_range t a n :
+  let R := Z.of_nat (List.length (sh t) + List.length (pl a)) in
+  sh a = [n] -> (exists x, In x (pl a) /\ (x < - R \/ R <= x)) ->
+  unsqueeze_spec t a = SMustErr.
+Proof. exact (unsqueeze_refuses_range t a n). Qed.
 
 (* the known-finding class is real: the model (and the code) panic on it *)
 Example C07_shape_rank0_refuted :
